@@ -135,7 +135,8 @@ class E(opscalar.ScalarOp):
             duration = self.tau
             if axes is not None and np.ndim(duration) > 0:
                 # the duration follows the operator to its axes
-                duration = common.set_axes(0, np.asarray(duration), axes)
+                own = axes if isinstance(axes, int) else tuple(axes)[: np.ndim(duration)]
+                duration = common.set_axes(0, np.asarray(duration), own)
 
         # init operator
         opscalar.diff.DiffOperator.__init__(
@@ -215,7 +216,8 @@ class P(opscalar.ScalarOp):
             duration = self.tau
             if axes is not None and np.ndim(duration) > 0:
                 # the duration follows the operator to its axes
-                duration = common.set_axes(0, np.asarray(duration), axes)
+                own = axes if isinstance(axes, int) else tuple(axes)[: np.ndim(duration)]
+                duration = common.set_axes(0, np.asarray(duration), own)
 
         # init operator
         opscalar.diff.DiffOperator.__init__(
